@@ -394,3 +394,20 @@ func VerifNewPlaylist(base int) *Playlist {
 func VerifRollover(pl *Playlist, seq int) {
 	pl.addSegment(&segment{sequenceNo: seq, duration: 5, file: &verifFile{}, uri: "/streams/live/h/" + strconv.Itoa(seq) + ".ts"})
 }
+
+// VerifAacJitterStep (C09 / C10, one inductive step over the jitter state): from any state
+// (base, sample count) and any supplied audio PTS, the PTS given to the audio PES is within
+// the 100 ms sync window of the supplied one - in both directions - and equal to it after a
+// resynchronisation.
+func VerifAacJitterStep() {
+	ha := newHlsAacJitter()
+	ha.basePts = symapi.Int64("basePts")
+	ha.nbSamples = symapi.Int64("nbSamples")
+	pts := symapi.Int64("pts")
+	symapi.Assume(ha.basePts >= 0 && ha.basePts < 1<<33 && ha.nbSamples >= 0 && ha.nbSamples < 1<<20 && pts >= 0 && pts < 1<<33)
+	rate := []int{44100, 48000, 22050}[symapi.Choose("sampleRate", 3)]
+	got := ha.onBufferStart(pts, rate)
+	d := got - pts
+	symapi.Assert(d <= 100*90 && d >= -100*90, "audio-pes-pts-within-the-sync-window-of-the-supplied-pts")
+	symapi.Reach("end")
+}
